@@ -1,5 +1,5 @@
 (* C13 — Every search terminates and standard scans are linear in the haystack. *)
-From DV Require Import Model.Base Model.Nfa Model.BwBuild Model.BwSearch Model.Utf8 Model.CwBuild Model.Api Model.Spec
+From DV Require Import Model.Base Model.Nfa Model.BwBuild Model.BwSearch Model.Utf8 Model.CwBuild Model.CwSearch Model.Api Model.Spec
      Model.Cert Proofs.BwCert Proofs.Leftmost Proofs.BwLeftmost Proofs.Utf8Props Proofs.CwCert Proofs.TrieInv Proofs.BuiltAutomata.
 Local Open Scope N_scope.
 
@@ -130,3 +130,82 @@ Proof.
           (cw_built_nosuffix V veqb Hv nfb pvs A Hs HA cs Hc). auto.
 Qed.
 Print Assumptions cw_standard_searches_terminate_for_every_built_automaton.
+
+(* ---- the character-wise variant: at most 2 * (number of characters) <= 2n iterations --------- *)
+(* For a certified character-wise automaton and ANY UTF-8 text of m characters (n >= m bytes), each
+   standard iterator run to exhaustion with the fuel the public entry point uses terminates normally
+   and has taken at most 2m <= 2n transition-loop iterations (one loop entry per character, plus at
+   most one fail step per unit of depth gained; characters that are not in the code mapper reset to
+   the root with one iteration). *)
+Theorem cw_standard_scans_linear :
+  forall (V : Type) (veqb : V -> V -> bool), (forall a b, veqb a b = true -> a = b) ->
+  forall (A : cw_automaton V) (pvs : list (list N * V)), cw_cert_ok veqb A pvs = true ->
+  forall cs : list N, Forall scalar cs ->
+    (exists ms it', drain V (cfind_next V (cw_sget V A) (cw_oget V A) (cw_tget V A) (cw_nslots V A))
+                          (S (S (length (encode_utf8 cs)))) (find_init (encode_utf8 cs)) = Ok (ms, it')
+                    /\ (N.to_nat (f_ticks it') <= 2 * length cs)%nat)
+    /\ (exists ms it', drain V (cnos_next V (cw_sget V A) (cw_oget V A) (cw_tget V A) (cw_nslots V A))
+                          (S (S (length (encode_utf8 cs)))) (nos_init (encode_utf8 cs)) = Ok (ms, it')
+                    /\ (N.to_nat (x_ticks it') <= 2 * length cs)%nat)
+    /\ (exists ms it', drain V (covl_next V (cw_sget V A) (cw_oget V A) (cw_tget V A) (cw_nslots V A))
+                          (S (S (length (encode_utf8 cs)) * S (length (cw_outputs A)))) (ovl_init (encode_utf8 cs)) = Ok (ms, it')
+                    /\ (N.to_nat (v_ticks it') <= 2 * length cs)%nat).
+Proof.
+  intros V veqb Hv A pvs C cs Hs. split; [|split].
+  - exact (cw_find_linear_lemma V veqb Hv A pvs C cs Hs).
+  - exact (cw_nosuffix_linear_lemma V veqb Hv A pvs C cs Hs).
+  - exact (cw_overlapping_linear_lemma V veqb Hv A pvs C cs Hs).
+Qed.
+Print Assumptions cw_standard_scans_linear.
+
+(* a text never has more characters than bytes, so 2m <= 2n *)
+Theorem chars_le_bytes : forall cs : list N, (length cs <= length (encode_utf8 cs))%nat.
+Proof. exact enc_len_ge. Qed.
+Print Assumptions chars_le_bytes.
+
+(* ... and for EVERY built character-wise automaton of the standard kind (builder theorem) *)
+Theorem cw_standard_scans_linear_for_every_built_automaton :
+  forall (V : Type) (veqb : V -> V -> bool), (forall a b, veqb a b = true <-> a = b) ->
+  forall nfb (pvs : list (list N * V)) (A : cw_automaton V),
+    4 * total_len V pvs <= U32_MAX - 1 ->
+    cw_build_with_values V Standard nfb pvs = Ok A ->
+  forall cs : list N, Forall scalar cs ->
+    (exists ms it', drain V (cfind_next V (cw_sget V A) (cw_oget V A) (cw_tget V A) (cw_nslots V A))
+                          (S (S (length (encode_utf8 cs)))) (find_init (encode_utf8 cs)) = Ok (ms, it')
+                    /\ (N.to_nat (f_ticks it') <= 2 * length (encode_utf8 cs))%nat)
+    /\ (exists ms it', drain V (cnos_next V (cw_sget V A) (cw_oget V A) (cw_tget V A) (cw_nslots V A))
+                          (S (S (length (encode_utf8 cs)))) (nos_init (encode_utf8 cs)) = Ok (ms, it')
+                    /\ (N.to_nat (x_ticks it') <= 2 * length (encode_utf8 cs))%nat)
+    /\ (exists ms it', drain V (covl_next V (cw_sget V A) (cw_oget V A) (cw_tget V A) (cw_nslots V A))
+                          (S (S (length (encode_utf8 cs)) * S (length (cw_outputs A)))) (ovl_init (encode_utf8 cs)) = Ok (ms, it')
+                    /\ (N.to_nat (v_ticks it') <= 2 * length (encode_utf8 cs))%nat).
+Proof.
+  intros V veqb Hv nfb pvs A Hs HA cs Hc.
+  pose proof (cw_built_cert V veqb Hv nfb pvs A Hs HA) as C.
+  pose proof (enc_len_ge cs) as Hle.
+  destruct (cw_standard_scans_linear V veqb (fun a b => proj1 (Hv a b)) A pvs C cs Hc)
+    as ((m1 & i1 & D1 & T1) & (m2 & i2 & D2 & T2) & (m3 & i3 & D3 & T3)).
+  split; [|split]; eexists; eexists; (split; [eassumption|]); eapply Nat.le_trans; try eassumption; apply Nat.mul_le_mono_l; exact Hle.
+Qed.
+Print Assumptions cw_standard_scans_linear_for_every_built_automaton.
+
+(* ---- the leftmost kinds terminate on EVERY built automaton (they return the specified list) ---- *)
+Theorem leftmost_searches_terminate_for_every_built_automaton :
+  forall (V : Type) (veqb : V -> V -> bool), (forall a b, veqb a b = true <-> a = b) ->
+  forall k, k <> Standard ->
+  forall nfb (pvs : list (list N * V)), 4 * total_len V pvs <= U32_MAX - 1 ->
+    (forall A, (forall p v, In (p, v) pvs -> Forall (fun b => b < 256) p) ->
+       bw_build_with_values V k nfb pvs = Ok A ->
+       forall h, Forall (fun b => b < 256) h -> is_ok (bw_leftmost_find_iter V A h) = true)
+    /\ (forall A, cw_build_with_values V k nfb pvs = Ok A ->
+       forall cs, Forall scalar cs -> is_ok (cw_leftmost_find_iter V A (encode_utf8 cs)) = true).
+Proof.
+  intros V veqb Hv k Hk nfb pvs Hs. split.
+  - intros A Hb HA h Hh. destruct k; [congruence| |].
+    + rewrite (bw_built_lml V veqb Hv nfb pvs A Hb Hs HA h Hh). reflexivity.
+    + rewrite (bw_built_lmf V veqb Hv nfb pvs A Hb Hs HA h Hh). reflexivity.
+  - intros A HA cs Hc. destruct k; [congruence| |].
+    + rewrite (cw_built_lml V veqb Hv nfb pvs A Hs HA cs Hc). reflexivity.
+    + rewrite (cw_built_lmf V veqb Hv nfb pvs A Hs HA cs Hc). reflexivity.
+Qed.
+Print Assumptions leftmost_searches_terminate_for_every_built_automaton.
